@@ -1002,7 +1002,7 @@ fn report_comp_failure(model: &mut Model, rep: &mut Report, tape: &[u8], ops: &[
 
 pub fn run(o: &Opts) -> Report {
     let mut rep = Report::new("C10");
-    rep.rule = "system level: random TAP images (0-6 blocks; lengths from {0,1,2,3,19,127,128,129,130,255,256,257,258,300,383..386,512,513}, \
+    rep.rule = "(plus eight/120 scripted scenarios in which the trap and the ROM in real time serve one tape in turn) system level: random TAP images (0-6 blocks; lengths from {0,1,2,3,19,127,128,129,130,255,256,257,258,300,383..386,512,513}, \
 random short, 100-3000, thorough also 16385..65535; good and bad checksums; optional stray byte or truncated last block) loaded into a real \
 Emulator (48K, a quarter 128K with ROM1 paged) with the embedded ROM and fast loading on; per tape one request per block plus 0-2 past the \
 end, each a call of ROM 0x0556 (LOAD/VERIFY, matching or wrong flag, DE = matching/0/1/short/long/block length/0xFFxx, IX in RAM, in ROM, \
@@ -1017,7 +1017,20 @@ class, IX in ROM, wrapped) of requests that returned to the caller"
 
     if let Some(text) = &o.replay {
         rep.sample(J::s(truncate_text(text, 400)));
-        if text.starts_with("component") {
+        if text.starts_with("system") {
+            let c = crate::c11::parse_sys(text);
+            if let Some(d) = crate::c11::run_sys_case(&mut model, &c, &c.tape.clone(), "C10", Some(&mut rep)) {
+                rep.violation(Violation {
+                    kind: d.kind,
+                    key: format!("{}/replay", d.key),
+                    what: d.what.clone(),
+                    correspondence: "corr.C10.fastload (requests served by the trap and by the ROM in real time on one tape)".into(),
+                    case: J::obj(vec![("text", J::s(text.clone()))]),
+                    implementation: d.implementation.clone(),
+                    expected: d.expected.clone(),
+                });
+            }
+        } else if text.starts_with("component") {
             let (tape, ops, chunk, eofz) = parse_comp(text);
             if let Some(d) = component_case(&mut model, &tape, &ops, chunk, eofz, Some(&mut rep)) {
                 report_comp_failure(&mut model, &mut rep, &tape, &ops, chunk, eofz, d);
@@ -1141,6 +1154,26 @@ class, IX in ROM, wrapped) of requests that returned to the caller"
             report_failure(&mut model, &mut rep, fixed, &c, d);
         }
     }
+    // 3. the trap next to a playing deck: the same tape served in turn by the trap (deck standing still) and by the
+    // ROM in real time (deck playing); every request gets the next block of the tape
+    let mut rng = Rng::new(o.seed ^ 0x5C1A);
+    for (c, name) in crate::c11::mixed_cases(&mut rng, o.n(8, 120)) {
+        rep.count("cases", format!("trap and real time mixed: {}", name));
+        if let Some(d) = crate::c11::run_sys_case(&mut model, &c, &c.tape.clone(), "C10", Some(&mut rep)) {
+            if !rep.has_key(&d.key) {
+                rep.violation(Violation {
+                    kind: d.kind,
+                    key: format!("{}/{}", d.key, name.replace(' ', "-")),
+                    what: format!("{} (scenario: {}) [case: {}]", d.what, name, truncate_text(&crate::c11::sys_text(&c), 300)),
+                    correspondence: "corr.C10.fastload (requests served by the trap and by the ROM in real time on one tape)".into(),
+                    case: J::obj(vec![("text", J::s(crate::c11::sys_text(&c)))]),
+                    implementation: d.implementation.clone(),
+                    expected: d.expected.clone(),
+                });
+            }
+        }
+    }
+    let _ = model.ask(&format!("variant {}", if fixed { 1 } else { 0 }));
     rep.extra.push(("system_cases".into(), J::I(ncase)));
     rep.extra.push(("model_requests".into(), J::I(model.requests as i64)));
     rep
